@@ -58,24 +58,28 @@ def audit_run(ctx, run):
         if sc != ci["BREEDING_STRATEGY"]:
             ctx.violation("herd-strategy-mismatch", "%s: a herd of this run is simulated under strategy %r, the configured one is %r" % (
                 run.iso, sc, ci["BREEDING_STRATEGY"]), dict(case_k, herd_index=[x[0] for x in run.herds].index(h)))
-    # herds in construction order: round 1, (round 2), (round 3 if round 2 produced feed)
+    # which herd object a solve's meat and milk come from.  Construction order of the herds: round 1 (zero feed); round 2 (demand
+    # as feed), built before round 2 may abort; the final round builds its own herd only when round 2 produced results, otherwise
+    # it re-uses the round-1 herd (compute_parameters_third_round: `time_consts_round2 is None`)
     herd_of_round = {}
     hs = [h for h, a, kw in run.herds]
-    if len(run.solves) >= 1:
-        herd_of_round[0] = hs[0]
-    if len(run.solves) >= 2 and len(hs) >= 2:
-        herd_of_round[1] = hs[1]
-    if len(run.solves) >= 3:
-        herd_of_round[2] = hs[2] if len(hs) >= 3 else hs[0]
-    elif len(run.solves) == 1 and len(hs) >= 1:
-        herd_of_round[0] = hs[-1] if len(hs) > 1 and "third" in run.params and "second" not in run.params else hs[0]
+    kinds = [s_.kind for s_ in run.solves]
+    round2_ran = "to_animals" in kinds
+    for j, knd in enumerate(kinds):
+        if knd == "to_animals":
+            herd_of_round[j] = hs[1] if len(hs) >= 2 else None
+        elif j == 0 and (len(kinds) > 1 or "second" in run.params or "third" not in run.params):
+            herd_of_round[j] = hs[0]
+        else:  # the final human-maximising round
+            herd_of_round[j] = hs[2] if (round2_ran and len(hs) >= 3) else hs[0]
     third_only = len(run.solves) == 1 and "third" in run.params
     for r_idx, s in enumerate(run.solves):
         herd = herd_of_round.get(r_idx)
         if herd is None:
             continue
         T = s.opt.time_consts
-        case = {"country": run.iso, "options": run.opts, "round": (3 if third_only else r_idx + 1), "kind": s.kind}
+        final = s.kind == "to_humans" and r_idx == len(run.solves) - 1 and (r_idx > 0 or third_only)
+        case = {"country": run.iso, "options": run.opts, "round": (3 if final else r_idx + 1), "kind": s.kind}
         animals = list(herd.all_animals)
         lines = ["coupling.meat %d %s %s %s" % (n, " ".join(f2b(x) for x in kvals), f2b(mad.MEAT_WASTE_DISTRIBUTION), herd_tokens(animals, n)),
                  "coupling.milk %d %s %s %s %s %s" % (n, f2b(ci["MILK_YIELD_KG_PER_MILK_BEARING_ANIMAL_PER_YEAR"]), f2b(mad.MILK_KCALS),
